@@ -140,7 +140,10 @@ def exact_rate_games(res, games, label, kind_on_mismatch="correspondence", drv=N
         res.count("exact_tape_nodes", t["nodes"])
         res.count("exact_compares_recorded", t["compares"])
         if t["untraced"]:
+            # an operation the tape cannot express left the trace as a double: that double is good to an ulp of ITS value, which is not
+            # small against an update of 1e-5 sigma — the rounding-free tier does not speak for this game, the double tiers do
             res.count("exact_games_with_untraced_operations")
+            continue
         if mism:
             # a comparison the code made on doubles comes out differently on big floats: a knife-edge, not comparable
             res.count("exact_knife_edge_skipped")
@@ -232,6 +235,7 @@ def exact_predict_games(res, cases, which, label, kind_on_mismatch="corresponden
         res.count("exact_predictions")
         if t["untraced"]:
             res.count("exact_predictions_with_untraced_operations")
+            continue
         if int(a[1]):
             res.count("exact_knife_edge_skipped")
             continue
@@ -282,6 +286,9 @@ def exact_leaf_points(res, points, label, kind_on_mismatch="correspondence", drv
     for i, ((fn, x, t), _line, _u) in enumerate(traced):
         a, b = out[2 * i].split(" "), out[2 * i + 1].split(" ")
         item = dict(type="leaf", fn=fn, x=x, t=t)
+        if _u:
+            res.count("exact_leaf_points_with_untraced_operations")
+            continue
         if a[0] != "OK" or b[0] != "OK":
             res.fail("correspondence", "%s: exact evaluation failed: %s / %s" % (label, " ".join(a)[:80], " ".join(b)[:80]), item)
             continue
@@ -385,6 +392,9 @@ def exact_leagues(res, rng, n, label="league (exact)", drv=None):
             continue
         res.count("exact_leagues")
         res.count("exact_league_games", ng)
+        if untraced:
+            res.count("exact_leagues_with_untraced_operations")
+            continue
         if int(a[1]):
             res.count("exact_knife_edge_skipped")
             continue
